@@ -1,8 +1,87 @@
 import NauyacaVerif.Drv.Common
+import NauyacaVerif.Fs.TreeOS
+import NauyacaVerif.Fs.UploadReq
 namespace NauyacaVerif.Drv.UploadD
-open NauyacaVerif.Drv
+open NauyacaVerif.Drv Fs
 
-/-- line-protocol handler of this area; `none` = not one of ours -/
+/-! Line protocol of M-Upload (TAB separated):
+
+    upload <mode> <tree> <cfg> <line-cps> <content-hex> <fault>   → ok <status> <effects>
+
+  mode    ::= direct | proto        direct: the handler is called with the parsed request (a line
+                                    `from_line` rejects gives `badline`); proto: through the
+                                    protocol's content slicing (`pending` = not dispatched)
+  tree    ::= entries separated by ';' : f:<path>:<id> | d:<path> | l:<path>:<target>   (as `static`);
+              the upload directory is `uploads` directly under the tree's root
+  cfg     ::= <max>;<types>;<tokens>;<delete 0|1>;<pid>      types/tokens ::= N | E | cps|cps|…
+  fault   ::= - | mkdir:<n> | write:<k> | rename | unlink
+  effects ::= - | e;e;…   e ::= mk:<path> | wt:<path>:<hex>:<ok> | rn:<src>:<dst>:<ok> | ul:<path>:<ok>
+              (paths as the code points of the slash-joined components) -/
+
+def comps (s : String) : Path := if s == "" then [] else s.splitOn "/"
+
+def parseTree (s : String) : Tree :=
+  (s.splitOn ";").filterMap (fun e =>
+    match e.splitOn ":" with
+    | ["f", p, id] => some (comps p, Node.file id.toNat!)
+    | ["d", p] => some (comps p, Node.dir)
+    | ["l", p, tgt] => some (comps p, Node.link tgt)
+    | _ => none)
+
+def strOfCps (s : String) : String := String.ofList (cpsChars s)
+
+def parseList (s : String) : Option (List String) :=
+  if s == "N" then none else if s == "E" then some [] else some ((s.splitOn "|").map strOfCps)
+
+def parseCfg (s : String) : Option UCfg :=
+  match s.splitOn ";" with
+  | [mx, types, tokens, del, pid] =>
+    some { dir := ["uploads"], maxSize := mx.toNat!, allowedTypes := parseList types,
+           tokens := (parseList tokens).getD [], enableDelete := del == "1", pid := pid }
+  | _ => none
+
+def parseFault (s : String) : Option Faults :=
+  match s.splitOn ":" with
+  | ["-"] => some {}
+  | ["mkdir", n] => some { mkdirFailAt := some n.toNat! }
+  | ["write", k] => some { writeFailAfter := some k.toNat! }
+  | ["rename"] => some { renameOk := false }
+  | ["unlink"] => some { unlinkOk := false }
+  | _ => none
+
+def asciiEnv : Url.Env :=
+  { ipLiteralOk := fun _ => true, nfkcOk := fun _ => true, lowerU := fun s => s.map Url.lowerAscii }
+
+def showPath (p : Path) : String := showCps ("/".intercalate p).toList
+
+def showEffect : Effect → String
+  | .mkdir p => s!"mk:{showPath p}"
+  | .writeTemp p b ok => s!"wt:{showPath p}:{toHex b}:{if ok then 1 else 0}"
+  | .rename a b ok => s!"rn:{showPath a}:{showPath b}:{if ok then 1 else 0}"
+  | .unlink p ok => s!"ul:{showPath p}:{if ok then 1 else 0}"
+
+def showStatus : UStatus → String
+  | .s20 => "20" | .s40 => "40" | .s50 => "50" | .s51 => "51" | .s59 => "59" | .s60 => "60" | .raised => "raised"
+
+def showRes (r : UStatus × List Effect) : String :=
+  s!"ok {showStatus r.1} " ++ (if r.2.isEmpty then "-" else ";".intercalate (r.2.map showEffect))
+
 def handle : List String → Option String
+  | ["upload", mode, ts, cs, line, content, fault] =>
+    match parseCfg cs, parseFault fault with
+    | some c, some f =>
+      let os := treeOS (parseTree ts) []
+      let l := cpsChars line
+      let b := unhexS content
+      if mode == "direct" then
+        match parseTitan asciiEnv l with
+        | none => some "ok badline -"
+        | some t => some (showRes (handleUpload os c f (toReq t b)))
+      else if mode == "proto" then
+        match protoUpload asciiEnv os c f l b with
+        | none => some "ok pending -"
+        | some r => some (showRes r)
+      else some "bad-op"
+    | _, _ => some "bad-op"
   | _ => none
 end NauyacaVerif.Drv.UploadD
